@@ -78,6 +78,7 @@ func (c *caseWriter) put(input, impl sx) {
 	b.WriteByte('\n')
 	c.w.WriteString(b.String())
 	c.n++
+	noteProgress(b.String())
 }
 
 func (c *caseWriter) close() error {
